@@ -1,19 +1,41 @@
 """C12 helper: run scenarios on the Rust machine (rust/harness/src/machine.rs) -- same scenario and observation
-layout as c12_pymachine."""
+layout as c12_pymachine.  Optional scenario field "batch" (Rust only): the host loop calls CoreRuntime::step(n)
+with n > 1; the adapter then reports the instruction-by-instruction trace of that batched run (machine.rs
+`run_parts`)."""
 
 from __future__ import annotations
 
 import time
-from typing import Any, Dict, List
+from typing import Any, Dict, List, Optional
 
 from . import c12_rom as R
 from . import rsclient
 from .core import HarnessError
 
 
+def calls_of(sc: Dict[str, Any]) -> Optional[List[int]]:
+    """Host batching of a scenario: with "batch" = b > 1 the host calls CoreRuntime::step(n) with n = b, cut short
+    only where a host event is scheduled (events can only land between calls) and at the end of the run."""
+    b = int(sc.get("batch") or 0)
+    if b <= 1:
+        return None
+    steps = int(sc["steps"])
+    cuts = sorted({0, steps} | {int(e[0]) for e in sc.get("events", []) if 0 < int(e[0]) < steps})
+    calls: List[int] = []
+    for lo, hi in zip(cuts, cuts[1:]):
+        while lo < hi:
+            n = min(b, hi - lo)
+            calls.append(n)
+            lo += n
+    return calls
+
+
 def request_of(sc: Dict[str, Any]) -> Dict[str, Any]:
     segs, _ = R.layout(sc["prog"])
     extra: Dict[str, Any] = {}
+    calls = calls_of(sc)
+    if calls:
+        extra["calls"] = calls
     if sc.get("kbirq") is not None:
         extra["kbirq"] = bool(sc["kbirq"])
     return {
